@@ -197,6 +197,21 @@ _ADDED = {
     "C17": "R5/R6: refusals by exception only for atomically failing host calls, SUCCESS only after the effect; R7: no instance state is read by an operation, or every path-keyed memo is "
            "invalidated by every operation for every existing path it changes.",
 }
+_ADDED3 = {
+    "C01": "R5: every call that takes up a Metadata PDU (first PDU or recovered) records its checksum type and closure flag.",
+    "C03": "R1f: in acknowledged mode FILE_CHECKSUM_FAILURE is declared only when nothing is recorded missing.",
+    "C04": "R1: a limit fault must come with a recorded comparison against the configured limit; R5: an edge that accepts the awaited acknowledgement in its wait step re-sends nothing.",
+    "C06": "R8: no PDU kept in stored state is queued again (reported even when the interpreter part fails closed).",
+    "C08": "R3 additionally: no in-place mutation of per-transaction objects in functions reachable from NAK servicing.",
+    "C09": "R8: the modular sum is reduced modulo 2**32 by a statement that dominates the 4-byte packing.",
+    "C10": "R4: after every public call the ready-PDU counter equals the number of queued PDUs.",
+    "C11": "R1f: no in-place mutation of objects reachable from the put request or the user-supplied configuration objects; definite syntax-tree findings are reported even when the "
+           "interpreter-based part cannot run.",
+    "C14": "R7 (thorough, free table): the queue/counter invariant holds across abandonment paths.",
+    "C19": "R1 additionally: a refused put request leaves nothing behind but the stored request object.",
+}
+for _pid, _extra in _ADDED3.items():
+    _ADDED[_pid] = (_ADDED.get(_pid, "") + " " + _extra).strip()
 for _pid, _extra in _ADDED.items():
     if _pid in CLAIMS:
         CLAIMS[_pid]["text"] += " " + _extra
